@@ -19,6 +19,10 @@ CLAIMED = {
             "deterministic simulation with network/peer/clock fault injection, bounded-liveness and exactly-once oracle"),
     "C17": ("§4 C17", "Seeded exploration of the placement of a second put_mutable relative to the first call's lifetime (same step, lookup, store phase, after completion; decided exactly from step counters) x item relation x cas x storer reply family, plus overlapping non-mutable puts; rule-table oracle.",
             "deterministic simulation, seeded call-placement sampling vs. rule table"),
+    "C07": ("§4 C07", "Seeded exploration of lookups by a real node in loss-free networks of 2..300 scripted peers with partial knowledge, adversarial id plans and shuffled node lists; closure (every one of the 20 best known entries queried, no address twice), reported-list order and write-destination prefix computed from the lookup's own trace.",
+            "deterministic simulation, seeded topology/arrival-order sampling, exact trace oracle"),
+    "C11": ("§4 C11", "Wire monitor: every read reply of real servers compared with the harness's own secure-first/XOR selection from the table snapshot of the same step (tables filled to >20 entries through the real protocol path), plus the lookup-side accumulator order through the C07 scenario. Stated reach: take_until_secure only for parameter values real nodes compute.",
+            "deterministic simulation, per-step snapshot vs. wire monitor"),
     "C08": ("§4 C08", "Seeded exploration of ack/error/silence plans over 1..12 scripted storers plus real servers under loss, duplication and late replies, and >255-replica puts through extra_nodes with exactly 255/256/257/511/512/513 ackers; Ok/CasFailed/NotMostRecent/query-error verdict and the token-bearing-targets rule recomputed from the datagram trace; real ackers read back.",
             "deterministic simulation with loss/duplication/delay faults and scripted storers, trace-recomputed verdict"),
     "C09": ("§4 C09", "Seeded exploration with a spoofing adversary that sees every transaction id: responses/errors from wrong port, adjacent IP or unrelated address, with live or guessed tids, before/between/after the genuine reply, plus duplication of genuine replies; marker oracle (no contact to marker nodes, no marker in routing tables or address votes, no spoofed value or ack counted) and genuine-reply-still-accepted / consumed-once oracle.",
@@ -33,7 +37,7 @@ NOT_APPLICABLE = {
 }
 
 # properties designed in DESIGN.md whose checks are not built yet are listed as not claimed (reason says so)
-PENDING = ["C01", "C07", "C11", "C12", "C13", "C14", "C18", "C20"]
+PENDING = ["C01", "C12", "C13", "C14", "C18", "C20"]
 
 checks = []
 for pid, (ref, text, tech) in sorted(CLAIMED.items()):
